@@ -74,7 +74,7 @@ func (s *Sim) randPlan(cfg GenCfg) lnmodel.PayPlan {
 	return lnmodel.PayPlan{Answer: lnmodel.ASucceeded}
 }
 
-var advOutModes = []string{"over1", "overflow", "nonpow2", "zero-amount", "inactive-keyset", "mixed-inactive-keyset", "unknown-keyset", "dup-output", "already-signed"}
+var advOutModes = []string{"over1", "overflow", "nonpow2", "zero-amount", "inactive-keyset", "mixed-inactive-keyset", "unknown-keyset", "mixed-unknown-keyset", "dup-output", "already-signed"}
 
 // RandomOp performs one generated operation.
 func (s *Sim) RandomOp(cfg GenCfg) {
